@@ -338,7 +338,17 @@ def check_case(case, rec):
     Px, Py = np.array(case['Px']), np.array(case['Py'])
     n = len(Px)
     try:
-        rays = lens.trace_generic(np.zeros(n), np.full(n, Hy), Px.copy(), Py.copy(), wl)
+        # the caller's pupil arrays are used for two requests in a row (a loop over wavelengths or fields): the judged one
+        # is the second - it must aim at the points the arrays were made with
+        pxa, pya = Px.copy(), Py.copy()
+        lens.trace_generic(np.zeros(n), np.full(n, Hy), pxa, pya, wl)
+        first_ = [np.array(getattr(lens.surface_group, a_)[0], float).copy() for a_ in ('x', 'y', 'z', 'L', 'M', 'N')]
+        rays = lens.trace_generic(np.zeros(n), np.full(n, Hy), pxa, pya, wl)
+        second_ = [np.array(getattr(lens.surface_group, a_)[0], float) for a_ in ('x', 'y', 'z', 'L', 'M', 'N')]
+        rec.check('aim-at-pupil-point', all(np.array_equal(a_, b_, equal_nan=True) for a_, b_ in zip(first_, second_)),
+                  key='aim-at-pupil-point:same-arrays-requested-twice',
+                  msg='the same (Hy, Px, Py) arrays requested twice in a row launch different rays (vignetting factors '
+                      f'{"set" if any(f_[1] or f_[2] for f_ in spec["fields"]) else "not set"})')
     except ValueError as e:
         if 'Chebyshev input coordinates' in str(e):
             rec.cls('chebyshev-domain-error-skipped')
